@@ -341,6 +341,9 @@ func (P *Prog) mergeImplements() error {
 		if err := merge(g, depth+1); err != nil {
 			return err
 		}
+		if g.Iface && len(c.Requires) > 0 {
+			return fmt.Errorf("%s (%s): implements interface contract %s but adds preconditions callers through the interface cannot know (use assumes, or put them in the interface contract)", c.Key, c.Src, g.Key)
+		}
 		c.ImplKey = g.Key
 		if g.ImplKey != "" && strings.Contains(g.Key, "@") && !strings.Contains(g.Key, ".@") {
 			c.ImplKey = g.ImplKey
@@ -349,6 +352,7 @@ func (P *Prog) mergeImplements() error {
 		c.NImportedReq = len(g.Requires)
 		c.Ensures = append(append([]*Clause{}, g.Ensures...), c.Ensures...)
 		c.Modifies = append(append([]*Sx{}, g.Modifies...), c.Modifies...)
+		c.ExitUpdates = append(append([][3]*Sx{}, g.ExitUpdates...), c.ExitUpdates...)
 		c.HasMod = c.HasMod || g.HasMod
 		c.Uses = append(append([]string{}, g.Uses...), c.Uses...)
 		if len(c.Params) == 0 {
